@@ -3,74 +3,89 @@ import CddVerif.Model.Exmod
 namespace Exmod
 open Py
 
-/-- From a file system satisfying `pre`, every effect `m` logs satisfies `P`; if `m` returns `a`, the final file system
-    satisfies `post a`.  (An exception ends the run: nothing is required of the state it leaves.) -/
-def Spec {α} (pre : FS → Prop) (P : Effect → Prop) (m : M α) (post : α → FS → Prop) : Prop :=
-  ∀ fs, pre fs → (∀ e ∈ (m fs).trace, P e) ∧ (∀ a, (m fs).val = .ok a → post a (m fs).fs)
+/-- From a file system satisfying `pre`, *if every ghost item `m` records satisfies `OK`*, every effect `m` logs
+    satisfies `P`; if `m` returns `a`, the final file system satisfies `post a`.  (An exception ends the run: nothing is
+    required of the state it leaves.) -/
+def Spec {α} (OK : Item → Prop) (pre : FS → Prop) (P : Effect → Prop) (m : M α) (post : α → FS → Prop) : Prop :=
+  ∀ fs, pre fs → (∀ it ∈ (m fs).items, OK it) →
+    (∀ e ∈ (m fs).trace, P e) ∧ (∀ a, (m fs).val = .ok a → post a (m fs).fs)
 
-theorem spec_conseq {α} {pre pre' : FS → Prop} {P} {m : M α} {post post' : α → FS → Prop}
-    (h : Spec pre P m post) (hpre : ∀ fs, pre' fs → pre fs) (hpost : ∀ a fs, post a fs → post' a fs) :
-    Spec pre' P m post' := fun fs hfs =>
-  ⟨(h fs (hpre fs hfs)).1, fun a ha => hpost a _ ((h fs (hpre fs hfs)).2 a ha)⟩
+section
+variable {OK : Item → Prop} {P : Effect → Prop}
 
-theorem spec_pure {α} {pre : FS → Prop} {P} {a : α} {post : α → FS → Prop} (h : ∀ fs, pre fs → post a fs) :
-    Spec pre P (pure a : M α) post := fun fs hfs =>
-  ⟨(by intro e he; cases he), (by intro b hb; cases hb; exact h fs hfs)⟩
+theorem spec_conseq {α} {pre pre' : FS → Prop} {m : M α} {post post' : α → FS → Prop}
+    (h : Spec OK pre P m post) (hpre : ∀ fs, pre' fs → pre fs) (hpost : ∀ a fs, post a fs → post' a fs) :
+    Spec OK pre' P m post' := fun fs hfs hit =>
+  ⟨(h fs (hpre fs hfs) hit).1, fun a ha => hpost a _ ((h fs (hpre fs hfs) hit).2 a ha)⟩
 
-theorem spec_raise {α} {pre : FS → Prop} {P} {e : Err} {post : α → FS → Prop} : Spec pre P (raise e : M α) post :=
-  fun _ _ => ⟨(by intro e he; cases he), (by intro b hb; cases hb)⟩
+/-- a computation that logs nothing, records nothing and leaves the file system alone -/
+theorem spec_leaf {α} {pre : FS → Prop} {post : α → FS → Prop} (v : FS → Except Err α)
+    (h : ∀ fs a, pre fs → v fs = .ok a → post a fs) : Spec OK pre P (fun fs => Res.leaf [] fs (v fs)) post :=
+  fun fs hfs _ => ⟨(by intro e he; cases he), (fun a ha => h fs a hfs ha)⟩
 
-theorem spec_bind {α β} {pre : FS → Prop} {P} {m : M α} {f : α → M β} {mid : α → FS → Prop} {post : β → FS → Prop}
-    (hm : Spec pre P m mid) (hf : ∀ a, Spec (mid a) P (f a) post) : Spec pre P (m >>= f) post := by
+theorem spec_pure {α} {pre : FS → Prop} {a : α} {post : α → FS → Prop} (h : ∀ fs, pre fs → post a fs) :
+    Spec OK pre P (pure a : M α) post :=
+  spec_leaf (fun _ => .ok a) (fun fs b hfs hb => by cases hb; exact h fs hfs)
+
+theorem spec_raise {α} {pre : FS → Prop} {e : Err} {post : α → FS → Prop} : Spec OK pre P (raise e : M α) post :=
+  spec_leaf (fun _ => .error e) (fun _ _ _ hb => by cases hb)
+
+theorem spec_bind {α β} {pre : FS → Prop} {m : M α} {f : α → M β} {mid : α → FS → Prop} {post : β → FS → Prop}
+    (hm : Spec OK pre P m mid) (hf : ∀ a, Spec OK (mid a) P (f a) post) : Spec OK pre P (m >>= f) post := by
   intro fs hfs
-  have h1 := hm fs hfs
-  show (∀ e ∈ (M.bind m f fs).trace, P e) ∧ (∀ b, (M.bind m f fs).val = .ok b → post b (M.bind m f fs).fs)
+  show (∀ it ∈ (M.bind m f fs).items, OK it) →
+    (∀ e ∈ (M.bind m f fs).trace, P e) ∧ (∀ b, (M.bind m f fs).val = .ok b → post b (M.bind m f fs).fs)
   unfold M.bind
   cases hv : (m fs).val with
-  | error e => simp only [hv]; exact ⟨h1.1, (by intro b hb; cases hb)⟩
+  | error e =>
+    simp only [hv]
+    intro hit
+    exact ⟨(hm fs hfs hit).1, (by intro b hb; cases hb)⟩
   | ok a =>
     simp only [hv]
-    have h2 := hf a (m fs).fs (h1.2 a hv)
+    intro hit
+    have h1 := hm fs hfs (fun it h => hit it (List.mem_append_left _ h))
+    have h2 := hf a (m fs).fs (h1.2 a hv) (fun it h => hit it (List.mem_append_right _ h))
     refine ⟨?_, h2.2⟩
     intro e he
     rcases List.mem_append.mp he with h | h
     · exact h1.1 e h
     · exact h2.1 e h
 
-theorem spec_ite {α} {pre : FS → Prop} {P} {c : Prop} [Decidable c] {a b : M α} {post : α → FS → Prop}
-    (ha : c → Spec pre P a post) (hb : ¬c → Spec pre P b post) : Spec pre P (if c then a else b) post := by
+theorem spec_ite {α} {pre : FS → Prop} {c : Prop} [Decidable c] {a b : M α} {post : α → FS → Prop}
+    (ha : c → Spec OK pre P a post) (hb : ¬c → Spec OK pre P b post) : Spec OK pre P (if c then a else b) post := by
   by_cases h : c
   · simp only [h, if_true]; exact ha h
   · simp only [h, if_false]; exact hb h
 
 /-- `for x in xs: body x` with an invariant indexed by the items still to be processed -/
-theorem spec_forEach {α} {P} (I : List α → FS → Prop) (body : α → M Unit) :
-    ∀ (xs : List α), (∀ x rest, Spec (I (x :: rest)) P (body x) (fun _ => I rest)) →
-      Spec (I xs) P (forEach xs body) (fun _ => I [])
+theorem spec_forEach {α} (I : List α → FS → Prop) (body : α → M Unit) :
+    ∀ (xs : List α), (∀ x rest, Spec OK (I (x :: rest)) P (body x) (fun _ => I rest)) →
+      Spec OK (I xs) P (forEach xs body) (fun _ => I [])
   | [], _ => by unfold forEach; exact spec_pure (fun _ h => h)
   | x :: xs, h => by
     unfold forEach
     exact spec_bind (h x xs) (fun _ => spec_forEach I body xs h)
 
-theorem spec_forEach' {α} {P} {I : FS → Prop} {body : α → M Unit} (xs : List α)
-    (h : ∀ x, x ∈ xs → Spec I P (body x) (fun _ => I)) : Spec I P (forEach xs body) (fun _ => I) := by
+theorem spec_forEach' {α} {I : FS → Prop} {body : α → M Unit} (xs : List α)
+    (h : ∀ x, x ∈ xs → Spec OK I P (body x) (fun _ => I)) : Spec OK I P (forEach xs body) (fun _ => I) := by
   induction xs with
   | nil => unfold forEach; exact spec_pure (fun _ h => h)
   | cons x xs ih =>
     unfold forEach
     exact spec_bind (h x (List.mem_cons_self)) (fun _ => ih (fun y hy => h y (List.mem_cons_of_mem _ hy)))
 
-theorem spec_mapM' {α β} {P} {I : FS → Prop} {f : α → M β} {Q : β → Prop} (xs : List α)
-    (h : ∀ x, x ∈ xs → Spec I P (f x) (fun b fs => I fs ∧ Q b)) :
-    Spec I P (mapM' xs f) (fun bs fs => I fs ∧ ∀ b ∈ bs, Q b) := by
+theorem spec_mapM' {α β} {I : FS → Prop} {f : α → M β} {Q : β → Prop} (xs : List α)
+    (h : ∀ x, x ∈ xs → Spec OK I P (f x) (fun b fs => I fs ∧ Q b)) :
+    Spec OK I P (mapM' xs f) (fun bs fs => I fs ∧ ∀ b ∈ bs, Q b) := by
   induction xs with
   | nil => unfold mapM'; exact spec_pure (fun _ h => ⟨h, (by intro b hb; cases hb)⟩)
   | cons x xs ih =>
     unfold mapM'
     refine spec_bind (h x (List.mem_cons_self)) (fun b => ?_)
     refine spec_bind (mid := fun bs fs => (I fs ∧ ∀ b ∈ bs, Q b) ∧ Q b) ?_ ?_
-    · intro fs hfs
-      have := ih (fun y hy => h y (List.mem_cons_of_mem _ hy)) fs hfs.1
+    · intro fs hfs hit
+      have := ih (fun y hy => h y (List.mem_cons_of_mem _ hy)) fs hfs.1 hit
       exact ⟨this.1, fun a ha => ⟨this.2 a ha, hfs.2⟩⟩
     · intro bs
       exact spec_pure (fun fs hfs => ⟨hfs.1.1, by
@@ -79,46 +94,54 @@ theorem spec_mapM' {α β} {P} {I : FS → Prop} {f : α → M β} {Q : β → P
         · exact hfs.2
         · exact hfs.1.2 c hc⟩)
 
-theorem spec_mapErr {α} {pre : FS → Prop} {P} {m : M α} {g : Err → Err} {post : α → FS → Prop}
-    (h : Spec pre P m post) : Spec pre P (mapErr m g) post := by
+theorem spec_mapErr {α} {pre : FS → Prop} {m : M α} {g : Err → Err} {post : α → FS → Prop}
+    (h : Spec OK pre P m post) : Spec OK pre P (mapErr m g) post := by
   intro fs hfs
-  have h1 := h fs hfs
   unfold mapErr
   cases hv : (m fs).val with
-  | error e => simp only [hv]; exact ⟨h1.1, (by intro b hb; cases hb)⟩
-  | ok a => simp only [hv]; exact ⟨h1.1, (by intro b hb; cases hb; exact h1.2 a hv)⟩
+  | error e =>
+    simp only [hv]
+    intro hit
+    exact ⟨(h fs hfs hit).1, (by intro b hb; cases hb)⟩
+  | ok a =>
+    simp only [hv]
+    intro hit
+    exact ⟨(h fs hfs hit).1, (by intro b hb; cases hb; exact (h fs hfs hit).2 a hv)⟩
 
 /-! ### primitives that only read -/
 
-theorem spec_isdir {pre : FS → Prop} {P} (p : Path) : Spec pre P (isdir p) (fun b fs => pre fs ∧ b = fs.isdir p) :=
-  fun fs hfs => ⟨(by intro e he; cases he), (by intro b hb; cases hb; exact ⟨hfs, rfl⟩)⟩
-theorem spec_isfile {pre : FS → Prop} {P} (p : Path) : Spec pre P (isfile p) (fun b fs => pre fs ∧ b = fs.isfile p) :=
-  fun fs hfs => ⟨(by intro e he; cases he), (by intro b hb; cases hb; exact ⟨hfs, rfl⟩)⟩
-theorem spec_pexists {pre : FS → Prop} {P} (p : Path) : Spec pre P (pexists p) (fun b fs => pre fs ∧ b = fs.pexists p) :=
-  fun fs hfs => ⟨(by intro e he; cases he), (by intro b hb; cases hb; exact ⟨hfs, rfl⟩)⟩
-theorem spec_readFile {pre : FS → Prop} {P} (p : Path) :
-    Spec pre P (readFile p) (fun f fs => pre fs ∧ fs.read p = some f) := by
-  intro fs hfs
+theorem spec_isdir {pre : FS → Prop} (p : Path) : Spec OK pre P (isdir p) (fun b fs => pre fs ∧ b = fs.isdir p) :=
+  spec_leaf _ (fun _ _ hfs hb => by cases hb; exact ⟨hfs, rfl⟩)
+theorem spec_isfile {pre : FS → Prop} (p : Path) : Spec OK pre P (isfile p) (fun b fs => pre fs ∧ b = fs.isfile p) :=
+  spec_leaf _ (fun _ _ hfs hb => by cases hb; exact ⟨hfs, rfl⟩)
+theorem spec_pexists {pre : FS → Prop} (p : Path) : Spec OK pre P (pexists p) (fun b fs => pre fs ∧ b = fs.pexists p) :=
+  spec_leaf _ (fun _ _ hfs hb => by cases hb; exact ⟨hfs, rfl⟩)
+theorem spec_readFile {pre : FS → Prop} (p : Path) :
+    Spec OK pre P (readFile p) (fun f fs => pre fs ∧ fs.read p = some f) := by
+  intro fs hfs _
   unfold readFile
   cases h : fs.read p with
   | none => exact ⟨(by intro e he; cases he), (by intro b hb; cases hb)⟩
   | some f => exact ⟨(by intro e he; cases he), (by intro b hb; cases hb; exact ⟨hfs, h⟩)⟩
-theorem spec_note {pre : FS → Prop} {P} (it : Item) : Spec pre P (note it) (fun _ fs => pre fs) :=
-  fun fs hfs => ⟨(by intro e he; cases he), (by intro b hb; cases hb; exact hfs)⟩
+/-- the ghost item may be assumed `OK` afterwards -/
+theorem spec_note {pre : FS → Prop} (it : Item) : Spec OK pre P (note it) (fun _ fs => pre fs ∧ OK it) :=
+  fun fs hfs hit => ⟨(by intro e he; cases he), (by intro b hb; cases hb; exact ⟨hfs, hit it (List.mem_singleton.mpr rfl)⟩)⟩
 
 /-- weaker forms (state only) -/
-theorem spec_isdir' {pre : FS → Prop} {P} (p : Path) : Spec pre P (isdir p) (fun _ fs => pre fs) :=
+theorem spec_isdir' {pre : FS → Prop} (p : Path) : Spec OK pre P (isdir p) (fun _ fs => pre fs) :=
   spec_conseq (spec_isdir p) (fun _ h => h) (fun _ _ h => h.1)
-theorem spec_isfile' {pre : FS → Prop} {P} (p : Path) : Spec pre P (isfile p) (fun _ fs => pre fs) :=
+theorem spec_isfile' {pre : FS → Prop} (p : Path) : Spec OK pre P (isfile p) (fun _ fs => pre fs) :=
   spec_conseq (spec_isfile p) (fun _ h => h) (fun _ _ h => h.1)
-theorem spec_pexists' {pre : FS → Prop} {P} (p : Path) : Spec pre P (pexists p) (fun _ fs => pre fs) :=
+theorem spec_pexists' {pre : FS → Prop} (p : Path) : Spec OK pre P (pexists p) (fun _ fs => pre fs) :=
   spec_conseq (spec_pexists p) (fun _ h => h) (fun _ _ h => h.1)
-theorem spec_readFile' {pre : FS → Prop} {P} (p : Path) : Spec pre P (readFile p) (fun _ fs => pre fs) :=
+theorem spec_readFile' {pre : FS → Prop} (p : Path) : Spec OK pre P (readFile p) (fun _ fs => pre fs) :=
   spec_conseq (spec_readFile p) (fun _ h => h) (fun _ _ h => h.1)
+theorem spec_note' {pre : FS → Prop} (it : Item) : Spec OK pre P (note it) (fun _ fs => pre fs) :=
+  spec_conseq (spec_note it) (fun _ h => h) (fun _ _ h => h.1)
 
-theorem spec_print {pre : FS → Prop} {P : Effect → Prop} (s : Str) (h : P (.print s)) :
-    Spec pre P (print s) (fun _ fs => pre fs) := by
-  intro fs hfs
+theorem spec_print {pre : FS → Prop} (s : Str) (h : P (.print s)) :
+    Spec OK pre P (print s) (fun _ fs => pre fs) := by
+  intro fs hfs _
   refine ⟨?_, (by intro b hb; cases hb; exact hfs)⟩
   intro e he
   have : e = .print s := by simpa [print, effect, Res.leaf] using he
@@ -127,30 +150,33 @@ theorem spec_print {pre : FS → Prop} {P : Effect → Prop} (s : Str) (h : P (.
 /-! ### invariant reasoning: `m` keeps `I` and logs only `P`-effects -/
 
 /-- from a file system satisfying `I`, every effect logged by `m` satisfies `P` and `I` still holds when `m` returns -/
-def AllEff {α} (I : FS → Prop) (P : Effect → Prop) (m : M α) : Prop := Spec I P m (fun _ fs => I fs)
+def AllEff {α} (OK : Item → Prop) (I : FS → Prop) (P : Effect → Prop) (m : M α) : Prop :=
+  Spec OK I P m (fun _ fs => I fs)
 
-theorem AllEff.trace {α} {I P} {m : M α} (h : AllEff I P m) (fs : FS) (hfs : I fs) : ∀ e ∈ (m fs).trace, P e := (h fs hfs).1
+variable {I : FS → Prop}
 
-theorem allEff_of_spec {α} {I P} {m : M α} {post : α → FS → Prop} (h : Spec I P m post) (hp : ∀ a fs, post a fs → I fs) :
-    AllEff I P m := spec_conseq h (fun _ h => h) hp
-theorem allEff_pure {α} {I P} (a : α) : AllEff I P (pure a : M α) := spec_pure (fun _ h => h)
-theorem allEff_raise {α} {I P} (e : Err) : AllEff I P (raise e : M α) := spec_raise
-theorem allEff_bind {α β} {I P} {m : M α} {f : α → M β} (hm : AllEff I P m) (hf : ∀ a, AllEff I P (f a)) :
-    AllEff I P (m >>= f) := spec_bind hm hf
-theorem allEff_ite {α} {I P} {c : Prop} [Decidable c] {a b : M α} (ha : c → AllEff I P a) (hb : ¬c → AllEff I P b) :
-    AllEff I P (if c then a else b) := spec_ite ha hb
-theorem allEff_forEach {α} {I P} {body : α → M Unit} (xs : List α) (h : ∀ x, AllEff I P (body x)) :
-    AllEff I P (forEach xs body) := spec_forEach' xs (fun x _ => h x)
-theorem allEff_mapM' {α β} {I P} {f : α → M β} (xs : List α) (h : ∀ x, AllEff I P (f x)) : AllEff I P (mapM' xs f) :=
+theorem allEff_of_spec {α} {m : M α} {post : α → FS → Prop} (h : Spec OK I P m post) (hp : ∀ a fs, post a fs → I fs) :
+    AllEff OK I P m := spec_conseq h (fun _ h => h) hp
+theorem allEff_pure {α} (a : α) : AllEff OK I P (pure a : M α) := spec_pure (fun _ h => h)
+theorem allEff_raise {α} (e : Err) : AllEff OK I P (raise e : M α) := spec_raise
+theorem allEff_bind {α β} {m : M α} {f : α → M β} (hm : AllEff OK I P m) (hf : ∀ a, AllEff OK I P (f a)) :
+    AllEff OK I P (m >>= f) := spec_bind hm hf
+theorem allEff_ite {α} {c : Prop} [Decidable c] {a b : M α} (ha : c → AllEff OK I P a) (hb : ¬c → AllEff OK I P b) :
+    AllEff OK I P (if c then a else b) := spec_ite ha hb
+theorem allEff_forEach {α} {body : α → M Unit} (xs : List α) (h : ∀ x, AllEff OK I P (body x)) :
+    AllEff OK I P (forEach xs body) := spec_forEach' xs (fun x _ => h x)
+theorem allEff_mapM' {α β} {f : α → M β} (xs : List α) (h : ∀ x, AllEff OK I P (f x)) : AllEff OK I P (mapM' xs f) :=
   allEff_of_spec (spec_mapM' (Q := fun _ => True) xs (fun x _ => spec_conseq (h x) (fun _ h => h) (fun _ _ h => ⟨h, trivial⟩)))
     (fun _ _ h => h.1)
-theorem allEff_mapErr {α} {I P} {m : M α} {g : Err → Err} (h : AllEff I P m) : AllEff I P (mapErr m g) := spec_mapErr h
-theorem allEff_isdir {I P} (p : Path) : AllEff I P (isdir p) := spec_isdir' p
-theorem allEff_isfile {I P} (p : Path) : AllEff I P (isfile p) := spec_isfile' p
-theorem allEff_pexists {I P} (p : Path) : AllEff I P (pexists p) := spec_pexists' p
-theorem allEff_readFile {I P} (p : Path) : AllEff I P (readFile p) := spec_readFile' p
-theorem allEff_note {I P} (it : Item) : AllEff I P (note it) := spec_note it
-theorem allEff_print {I} {P : Effect → Prop} (s : Str) (h : P (.print s)) : AllEff I P (print s) := spec_print s h
+theorem allEff_mapErr {α} {m : M α} {g : Err → Err} (h : AllEff OK I P m) : AllEff OK I P (mapErr m g) := spec_mapErr h
+theorem allEff_isdir (p : Path) : AllEff OK I P (isdir p) := spec_isdir' p
+theorem allEff_isfile (p : Path) : AllEff OK I P (isfile p) := spec_isfile' p
+theorem allEff_pexists (p : Path) : AllEff OK I P (pexists p) := spec_pexists' p
+theorem allEff_readFile (p : Path) : AllEff OK I P (readFile p) := spec_readFile' p
+theorem allEff_note (it : Item) : AllEff OK I P (note it) := spec_note' it
+theorem allEff_print (s : Str) (h : P (.print s)) : AllEff OK I P (print s) := spec_print s h
+
+end
 
 /-- one step of structural decomposition of an `AllEff` goal -/
 macro "alleff_step" : tactic =>
@@ -170,18 +196,21 @@ macro "alleff_step" : tactic =>
     | (apply allEff_ite <;> intro _)
     | split)
 
+section
+variable {OK : Item → Prop} {P : Effect → Prop} {I : FS → Prop}
+
 /-! ### reading never logs an effect and never changes the file system -/
 
-theorem allEff_findModuleFilepath {I P} (env : Env) (mn sub : Option Str) (b : Bool) :
-    AllEff I P (findModuleFilepath env mn sub b) := by
+theorem allEff_findModuleFilepath (env : Env) (mn sub : Option Str) (b : Bool) :
+    AllEff OK I P (findModuleFilepath env mn sub b) := by
   unfold findModuleFilepath
   repeat alleff_step
 
-theorem allEff_contentsOfFile {I P} (env : Env) (file : Path) : AllEff I P (contentsOfFile env file) := by
+theorem allEff_contentsOfFile (env : Env) (file : Path) : AllEff OK I P (contentsOfFile env file) := by
   unfold contentsOfFile
   repeat (first | exact allEff_findModuleFilepath _ _ _ _ | alleff_step)
 
-theorem allEff_getModuleContents {I P} (env : Env) (d : Path) : AllEff I P (getModuleContents env d) := by
+theorem allEff_getModuleContents (env : Env) (d : Path) : AllEff OK I P (getModuleContents env d) := by
   unfold getModuleContents
   repeat (first | exact allEff_contentsOfFile _ _ | alleff_step)
 
@@ -189,42 +218,43 @@ theorem allEff_getModuleContents {I P} (env : Env) (d : Path) : AllEff I P (getM
 
 def IsPrint (e : Effect) : Prop := e.isPrint = true
 
-theorem dry_emitSymbol {I} (c : Ctx) (h : c.dryRun = true) (name : Str) (ef ifp : Path) :
-    AllEff I IsPrint (emitSymbol c name ef ifp) := by
+theorem dry_emitSymbol (c : Ctx) (h : c.dryRun = true) (name : Str) (ef ifp : Path) :
+    AllEff OK I IsPrint (emitSymbol c name ef ifp) := by
   unfold emitSymbol
   simp only [h, if_true]
   repeat alleff_step
 
-theorem dry_emitFileOnHierarchy {I} (c : Ctx) (h : c.dryRun = true) (mn key : Str) (orig : Path) (irName : Option Str) :
-    AllEff I IsPrint (emitFileOnHierarchy c mn key orig irName) := by
+theorem dry_emitFileOnHierarchy (c : Ctx) (h : c.dryRun = true) (mn key : Str) (orig : Path) (irName : Option Str) :
+    AllEff OK I IsPrint (emitFileOnHierarchy c mn key orig irName) := by
   unfold emitFileOnHierarchy
   simp only [h, if_true]
   repeat (first | exact dry_emitSymbol c h _ _ _ | alleff_step)
 
-theorem dry_emitFiles {I} (env : Env) (c : Ctx) (h : c.dryRun = true) (mn : Str) (d : Path) :
-    AllEff I IsPrint (emitFiles env c mn d) := by
+theorem dry_emitFiles (env : Env) (c : Ctx) (h : c.dryRun = true) (mn : Str) (d : Path) :
+    AllEff OK I IsPrint (emitFiles env c mn d) := by
   unfold emitFiles
   repeat (first | exact dry_emitFileOnHierarchy c h _ _ _ _ | exact allEff_getModuleContents _ _ | alleff_step)
 
-theorem dry_singleFolder {I} (r : Run) (h : r.cfg.dryRun = true) (mn : Str) (d o : Path) :
-    AllEff I IsPrint (singleFolder r mn d o) := by
+theorem dry_singleFolder (r : Run) (h : r.cfg.dryRun = true) (mn : Str) (d o : Path) :
+    AllEff OK I IsPrint (singleFolder r mn d o) := by
   unfold singleFolder
   simp only [h, if_true]
   repeat (first | exact dry_emitFiles _ _ rfl _ _ | exact allEff_findModuleFilepath _ _ _ _ | alleff_step)
 
-theorem dry_announceOut {I} (cfg : Cfg) (h : cfg.dryRun = true) : AllEff I IsPrint (announceOut cfg) := by
+theorem dry_announceOut (cfg : Cfg) (h : cfg.dryRun = true) : AllEff OK I IsPrint (announceOut cfg) := by
   unfold announceOut
   simp only [h, if_true]
   repeat alleff_step
 
-theorem dry_exmodStr {I} (cfg : Cfg) (env : Env) (h : cfg.dryRun = true) (emit : EmitKind) (announce : Bool) :
-    AllEff I IsPrint (exmodStr cfg env emit announce) := by
+theorem dry_exmodStr (cfg : Cfg) (env : Env) (h : cfg.dryRun = true) (emit : EmitKind) (announce : Bool) :
+    AllEff OK I IsPrint (exmodStr cfg env emit announce) := by
   unfold exmodStr
-  simp only [h, if_true, Bool.not_true, Bool.and_false, Bool.false_and, Bool.false_eq_true, if_false]
+  simp only [h, Bool.not_true, Bool.and_false, Bool.false_and, Bool.false_eq_true, if_false]
   repeat (first | exact dry_announceOut _ h | exact dry_singleFolder _ (by simp [h]) _ _ _ | exact allEff_findModuleFilepath _ _ _ _ | alleff_step)
 
-theorem dry_exmodCli {I} (cfg : Cfg) (env : Env) (h : cfg.dryRun = true) : AllEff I IsPrint (exmodCli cfg env) := by
+theorem dry_exmodCli (cfg : Cfg) (env : Env) (h : cfg.dryRun = true) : AllEff OK I IsPrint (exmodCli cfg env) := by
   unfold exmodCli
   repeat (first | exact dry_exmodStr _ _ h _ _ | alleff_step)
 
+end
 end Exmod
